@@ -74,7 +74,7 @@ impl MemQueue {
     pub fn next_position(&self) -> u64 {
         self.record_metas
             .last()
-            .map(|record| record.position + 1)
+            .map(|record| record.position.saturating_add(1))
             .unwrap_or(self.start_position)
     }
 
@@ -169,15 +169,17 @@ impl MemQueue {
         if self.start_position > truncate_up_to_pos {
             return 0;
         }
-        if truncate_up_to_pos + 1 >= self.next_position() {
-            self.start_position = truncate_up_to_pos + 1;
+        // positions come from the wal on replay: u64::MAX must not overflow.
+        let first_pos_to_keep = truncate_up_to_pos.saturating_add(1);
+        if first_pos_to_keep >= self.next_position() {
+            self.start_position = first_pos_to_keep;
             self.concatenated_records.clear();
             let record_count = self.record_metas.len();
             self.record_metas.clear();
             return record_count;
         }
         let first_record_to_keep = self
-            .position_to_idx(truncate_up_to_pos + 1)
+            .position_to_idx(first_pos_to_keep)
             .unwrap_or_else(std::convert::identity);
 
         let start_offset_to_keep: usize = self.record_metas[first_record_to_keep].start_offset;
@@ -187,7 +189,7 @@ impl MemQueue {
         }
         self.concatenated_records
             .truncate_head(..start_offset_to_keep);
-        self.start_position = truncate_up_to_pos + 1;
+        self.start_position = first_pos_to_keep;
         first_record_to_keep
     }
 
